@@ -118,10 +118,6 @@ theorem or7_zero (g1 g2 g3 g4 g5 g6 g7 : UInt16)
   obtain ⟨e1, e2⟩ := UInt16.or_eq_zero_iff.mp h2
   exact ⟨e1, e2, e3, e4, e5, e6, e7⟩
 
-/-- exact dequantised coefficient `mcu_blocks[0][idx] * quant_tables[q][idx]` -/
-def deqExact (b q : Array UInt16) (idx : Nat) : Int :=
-  sxInt (b.getD idx 0) * ((q.getD idx 0).toNat : Int)
-
 /-- first pass of column `c` WITHOUT any shortcut: butterfly, rounding shift by 11 -/
 def p1Butterfly (b q : Array UInt16) (c : Nat) : Oct Int :=
   (linInt (deqExact b q (8 * 0 + c)) (deqExact b q (8 * 1 + c)) (deqExact b q (8 * 2 + c))
@@ -163,10 +159,6 @@ theorem deqAvx2_exact (b q : Array UInt16) (idx : Nat)
   unfold deqAvx2
   unfold deqExact at h ⊢
   exact wrap16_id _ (by omega)
-
-/-- decidable "the 16-bit lanes of the AVX2 code fit" condition, part 1: dequantised coefficients -/
-def coeffsFit (b q : Array UInt16) : Bool :=
-  (List.range 64).all (fun idx => decide (-8191 ≤ deqExact b q idx ∧ deqExact b q idx ≤ 8191))
 
 theorem coeffsFit_get (b q : Array UInt16) (h : coeffsFit b q = true) (idx : Nat) (hi : idx < 64) :
     -8191 ≤ deqExact b q idx ∧ deqExact b q idx ≤ 8191 := by
@@ -291,15 +283,6 @@ theorem octOfFn_get {α : Type} (f : Nat → α) (k : Nat) : ∃ c, c < 8 ∧ (o
   · exact ⟨5, by omega, rfl⟩
   · exact ⟨6, by omega, rfl⟩
   · exact ⟨7, by omega, rfl⟩
-
-/-- decidable lane condition, part 2: every exact first-pass intermediate fits ±16383 (so that it
-fits an i16 lane AND the 16-bit sums of the second pass cannot wrap) -/
-def intermediatesFit (b q : Array UInt16) : Bool :=
-  (List.range 8).all (fun c => (p1colInt b q c).all (fun v => decide (-16383 ≤ v ∧ v ≤ 16383)))
-
-/-- `lanesFit`: the hypothesis of the block-level theorem; evaluated by the driver on every
-generated block (`fit=` field of the `idct` op). -/
-def lanesFit (b q : Array UInt16) : Bool := coeffsFit b q && intermediatesFit b q
 
 theorem intermediatesFit_get (b q : Array UInt16) (h : intermediatesFit b q = true) (c : Nat) (hc : c < 8)
     (k : Nat) : -16383 ≤ (p1colInt b q c).get k ∧ (p1colInt b q c).get k ≤ 16383 := by
@@ -500,7 +483,8 @@ theorem p1colU32_exact (b q : Array UInt16) (c : Nat) (hc : c < 8) (hfit : coeff
       (deqExact b q (8 * 3 + c)) (deqExact b q (8 * 4 + c)) (deqExact b q (8 * 5 + c)) (deqExact b q (8 * 6 + c))
       (deqExact b q (8 * 7 + c)) (by omega) (by omega) (by omega) (by omega) (by omega) (by omega) (by omega)
       (by omega) k
-    unfold deqExact at hb
+    have hb' := hb
+    unfold deqExact at hb'
     have e1024 : (1024 : UInt32) = UInt32.ofInt ((1024 : Nat) : Int) := rfl
     rw [e1024, ofInt_add_lit, sar32_ofInt _ (by omega)]
     rfl
@@ -581,8 +565,8 @@ theorem p2rowU32_exact (v : Oct Int) (hv : ∀ k, -16383 ≤ v.get k ∧ v.get k
     simp only [hor, hz, Bool.false_eq_true, ↓reduceIte]
     rw [linU32_hom]
     show ((linInt v.o0 v.o1 v.o2 v.o3 v.o4 v.o5 v.o6 v.o7).map UInt32.ofInt).map
-        (fun x => clampTab ((x + 131072) >>> 18)) =
-      ((linInt v.o0 v.o1 v.o2 v.o3 v.o4 v.o5 v.o6 v.o7).map (fun x => (x + 131072) / 262144)).map finalWrap
+        (fun x : UInt32 => clampTab ((x + 131072) >>> 18)) =
+      ((linInt v.o0 v.o1 v.o2 v.o3 v.o4 v.o5 v.o6 v.o7).map (fun x : Int => (x + 131072) / 262144)).map finalWrap
     rw [Oct.map_map, Oct.map_map]
     apply Oct.map_congr
     intro k
@@ -593,7 +577,8 @@ theorem p2rowU32_exact (v : Oct Int) (hv : ∀ k, -16383 ≤ v.get k ∧ v.get k
 
 theorem rowOf_map {α β : Type} (f : Nat → Oct α) (g : α → β) (r : Nat) :
     rowOf (octOfFn (fun c => (f c).map g)) r = (rowOf (octOfFn f) r).map g := by
-  simp only [rowOf, octOfFn, Oct.map, Oct.get_map]
+  simp only [rowOf, octOfFn, Oct.map]
+  congr 1 <;> (unfold Oct.get; split <;> rfl)
 
 /-- `idctPortable_block_exact`: for EVERY block whose lanes fit, the portable u32 code is the exact
 IDCT followed by wrap-modulo-1024-then-table of each sample. -/
@@ -621,9 +606,7 @@ theorem idctPortable_block_exact (b q : Array UInt16) (h : lanesFit b q = true) 
   unfold idctPortable idctExact
   dsimp only
   rw [hcols, List.map_flatMap]
-  congr 1
-  funext r
-  exact hrow r
+  exact congrArg (fun f => (List.range 8).flatMap f) (funext hrow)
 
 /-- `idct_block_variants_agree`: the documented exception at BLOCK level, over the models of the
 two variants — for every block whose exact reconstruction stays inside the 10-bit range and
